@@ -37,7 +37,7 @@ def lean_sources_hash():
         for f in sorted(files):
             if f.endswith(".lean"):
                 p = os.path.join(base, f)
-                h.update(p.encode()); h.update(open(p, "rb").read())
+                h.update(os.path.relpath(p, LEAN).encode()); h.update(open(p, "rb").read())
     for f in ("lakefile.toml", "registry.json", "OSq.lean"):
         p = os.path.join(LEAN, f)
         if os.path.exists(p):
@@ -279,7 +279,10 @@ def batch_tie(run: Run, label, cases, req, impl, parse, compare, tol=1e-9):
         m = parse(line)
         out.append((c, r, m))
         if "harness_error" in r:
+            # the implementation returned (or raised) something the harness cannot read: on the unchanged tree this never
+            # happens, so it is a failure of the implementation on this very input, not something to skip
             run.notes.append(f"{label}: harness error {r['harness_error']}")
+            run.violation(f"{label}: the implementation's result cannot be read back ({r['harness_error'][:120]})", c)
             continue
         d = compare(c, r, m)
         if d == "ambiguous":
